@@ -218,6 +218,9 @@ def ocaml_units():
 
 # ---------------------------------------------------------------------- harness
 
+DEGRADED = {}    # flavour -> compile errors of the macro-declared enums (harness built without them)
+
+
 def build_harness(flavour):
     """flavour: 'chk' (overflow checks + debug assertions on) or 'rel' (plain release).
     Always invoked: cargo decides what to rebuild from /repo's working tree (path dependency)."""
@@ -234,7 +237,18 @@ def build_harness(flavour):
     p = run(["timeout", "1500", "cargo", "build", "--release", "--offline", "--target-dir", tdir],
             cwd=HARNESS, env=env, check=False, timeout=1600)
     if p.returncode != 0:
-        raise BuildError("harness build (%s) failed:\n%s" % (flavour, p.stdout[-6000:]))
+        # the enums of src/derive_specs.rs are compiled with the REAL derive macros: when a change to the derive crate rejects
+        # them, build without them so that every other command still runs; the failing declaration is reported by C18
+        first = p.stdout
+        tdir2 = tdir + "-nc"
+        p2 = run(["timeout", "1500", "cargo", "build", "--release", "--offline", "--no-default-features", "--target-dir", tdir2],
+                 cwd=HARNESS, env=env, check=False, timeout=1600)
+        if p2.returncode != 0:
+            raise BuildError("harness build (%s) failed:\n%s" % (flavour, first[-6000:]))
+        errs = [l for l in first.split("\n") if l.startswith("error") or l.strip().startswith("-->")]
+        DEGRADED[flavour] = "\n".join(errs[:12]) or first[-2000:]
+        return os.path.join(tdir2, "release", "ebml-harness")
+    DEGRADED.pop(flavour, None)
     return os.path.join(tdir, "release", "ebml-harness")
 
 
